@@ -245,8 +245,25 @@ def make_fixture(env, fid, spec):
         def _setUp(self):
             env.log("fixture_setup", fid)
             self.addCleanup(self._logged_cleanup)
+            self._live = []
             for name, h in spec.get("details", []):
-                self.addDetail(name, _content([h], "bin"))
+                if spec.get("live"):
+                    # the callback hands out the fixture's own chunk list, emptied again at cleanUp
+                    from testtools.content import Content
+                    from testtools.content_type import ContentType
+                    chunks = [bytes.fromhex(h)]
+                    self._live.append(chunks)
+                    self.addDetail(name, Content(ContentType("application", "octet-stream"),
+                                                 lambda c=chunks: c))
+                else:
+                    self.addDetail(name, _content([h], "bin"))
+            if spec.get("bad_detail"):
+                from testtools.content import Content
+                from testtools.content_type import ContentType
+
+                def boom():
+                    raise RuntimeError("detail of %s cannot be evaluated" % fid)
+                self.addDetail("zz-bad", Content(ContentType("text", "plain"), boom))
             nested = spec.get("nested")
             if nested is not None:
                 self.useFixture(make_fixture(env, fid + ".n", nested))
@@ -256,6 +273,8 @@ def make_fixture(env, fid, spec):
 
         def _logged_cleanup(self):
             env.log("fixture_cleanup", fid)
+            for chunks in getattr(self, "_live", []):
+                del chunks[:]
             how = spec.get("cleanup", "ok")
             if how != "ok":
                 _do_raise(env, None, ["raise", how, "FXC:" + fid])
@@ -422,6 +441,8 @@ def build_case(program, env, runner_factory=None, default_result=None):
         def id(self):
             return "prog.test"
 
+    if program.get("force_attr") == "class":
+        Prog.force_failure = True
     if program.get("own_skip"):
         Prog.skipException = OwnSkip
     if program.get("own_fail"):
@@ -430,21 +451,32 @@ def build_case(program, env, runner_factory=None, default_result=None):
     if program.get("rtw"):
         Prog.test = testtools.run_test_with(testtools.RunTest)(Prog.test)
     decor = program.get("decor")
+    reason = program.get("decor_reason", "DECOR-skip")
     if decor == "skip_method":
-        Prog.test = testtools.skip("DECOR-skip")(Prog.test)
+        Prog.test = testtools.skip(reason)(Prog.test)
     elif decor == "skipIf_true":
-        Prog.test = testtools.skipIf(True, "DECOR-skip")(Prog.test)
+        Prog.test = testtools.skipIf(True, reason)(Prog.test)
     elif decor == "skipIf_false":
-        Prog.test = testtools.skipIf(False, "DECOR-skip")(Prog.test)
+        Prog.test = testtools.skipIf(False, reason)(Prog.test)
     elif decor == "skipUnless_false":
-        Prog.test = testtools.skipUnless(False, "DECOR-skip")(Prog.test)
+        Prog.test = testtools.skipUnless(False, reason)(Prog.test)
     elif decor == "skip_class":
-        Prog = testtools.skip("DECOR-skip")(Prog)
+        Prog = testtools.skip(reason)(Prog)
     elif decor == "stdlib_skip_method":
-        Prog.test = unittest.skip("DECOR-skip")(Prog.test)
+        Prog.test = unittest.skip(reason)(Prog.test)
     case = Prog("test")
+    if program.get("force_attr") == "instance":
+        case.force_failure = True
     for exc_name, report, position in program.get("handlers", []):
         _insert_handler(env, case, exc_name, report, position)
+    for hid in program.get("onexc_pre", []):
+        # a handler registered between construction and run() (e.g. by a harness)
+        env.log("onexc_reg", hid)
+
+        def handler(exc_info, hid=hid):
+            env.onexc_calls.append((next_seq(), hid, exc_info[1]))
+            env.log("onexc_called", hid, type(exc_info[1]).__name__)
+        case.addOnException(handler)
     return case
 
 
